@@ -1018,6 +1018,24 @@ where
 }
 
 impl Sim {
+    /// Wait (letting simulated time pass) until every other simulated thread has finished.
+    pub fn join_all_others(&self, me: usize) {
+        loop {
+            let target = {
+                let g = self.lock();
+                g.threads
+                    .iter()
+                    .enumerate()
+                    .find(|(i, s)| *i != me && s.st != St::Finished)
+                    .map(|(i, _)| i)
+            };
+            match target {
+                Some(t) => self.block_join(me, t),
+                None => return,
+            }
+        }
+    }
+
     /// Main thread epilogue: wait until all other simulated threads are finished (letting
     /// simulated time pass), then finish.
     fn child_exit_main(&self) {
